@@ -521,3 +521,205 @@ pub fn run(words: &[&str], ctx: &mut Ctx) -> String {
         out
     })
 }
+
+// ------------------------------------------------------------------------------------------------
+// `pkfetch <id hex> <name:kind:pos:type:value,...>`: where `Table.partition_key` / `pk_column_specs` come from
+// ------------------------------------------------------------------------------------------------
+//
+// The mock serves the case's `system_schema.columns` rows for `ks.pkf` VERBATIM and in the case's order (real
+// servers return them sorted by column NAME, not by key position). A real session fetches the schema
+// (`query_tables_schema` -> `validate_key_columns` -> `pk_column_specs`, `query_tables`, `resolve_metadata_keyspaces`);
+// then `ClusterState::compute_token("ks", "pkf", ..)` is called with typed values (`CqlValue` Blob / Int / Text) in
+// key-POSITION order, in column-NAME order and as a name -> value map, and the CDC log table of the same keyspace is
+// prepared. The Lean model recomputes everything from the rows (`Model/PkFetchC03.lean`).
+//
+// ORACLE (C03: "taken in partition-key order"), on well-formed rows (distinct names, key positions exactly 0..k-1):
+// `partition_key` lists the columns by position; `compute_token` of the values in position order, and of the named
+// values, is the server-side token of the key encoded in position order; values in name order whose TYPES differ
+// from the position order are rejected; the CDC log table gets the CDC partitioner and token.
+// Malformed rows (a gap / a repeated position) make the fetch drop the WHOLE keyspace: recorded and compared with the
+// model, not judged (declared in `assumptions`).
+
+pub fn generate_pkfetch(rng: &mut Rng, tier: Tier, emit: &mut dyn FnMut(String)) {
+    let n = if tier == Tier::Quick { 40 } else { 400 };
+    let names = ["a", "b", "c", "d", "e", "k1", "k10", "k2", "z", "m"];
+    let types = ["blob", "int", "text"];
+    for i in 0..n {
+        let k = match i % 8 { 0 => 1, 1 | 2 => 2, 3 | 4 => 3, 5 => 4, 6 => rng.range(2, 5) as usize, _ => rng.range(1, 3) as usize };
+        let m = rng.below(3) as usize; // clustering columns
+        let r = rng.below(3) as usize; // regular columns
+        let mut pool: Vec<&str> = names.to_vec();
+        rng.shuffle(&mut pool);
+        let mut rows: Vec<(String, char, i64, String, String)> = Vec::new();
+        for j in 0..k + m + r {
+            let ty = *rng.pick(&types);
+            let val = match ty {
+                "int" => crate::util::hex(&(rng.next() as i32).to_be_bytes()),
+                "text" => { let l = rng.below(5) as usize; crate::util::hex(&(0..l).map(|_| b'a' + rng.below(26) as u8).collect::<Vec<u8>>()) }
+                _ => { let l = rng.below(7) as usize; crate::util::hex(&rng.bytes(l)) }
+            };
+            let (kind, pos) = if j < k { ('p', j as i64) } else if j < k + m { ('c', (j - k) as i64) } else { ('r', -1) };
+            rows.push((pool[j].to_owned(), kind, pos, ty.to_owned(), if kind == 'p' { val } else { "-".to_owned() }));
+        }
+        // malformed keys (1 case in 5): a gap, a repeated position, a key starting at 1, a negative position
+        if i % 5 == 4 {
+            let which = if m > 0 && rng.bool() { 'c' } else { 'p' };
+            let idxs: Vec<usize> = (0..rows.len()).filter(|&j| rows[j].1 == which).collect();
+            let j = *rng.pick(&idxs);
+            rows[j].2 = match rng.below(4) { 0 => rows[j].2 + 1, 1 => (rows[j].2 - 1).max(-1), 2 => idxs.len() as i64, _ => *rng.pick(&[-1i64, 7, 2147483647]) };
+        }
+        // row order: by column name (as servers send them), shuffled, by position, reversed
+        match i % 4 {
+            0 | 1 => rows.sort_by(|x, y| x.0.cmp(&y.0)),
+            2 => rng.shuffle(&mut rows),
+            _ => rows.reverse(),
+        }
+        let id = rng.bytes(16);
+        emit(format!(
+            "pkfetch {} {}",
+            crate::util::hex(&id),
+            rows.iter().map(|(n, k, p, t, v)| format!("{n}:{k}:{p}:{t}:{v}")).collect::<Vec<_>>().join(",")
+        ));
+    }
+}
+
+pub fn run_pkfetch(words: &[&str], ctx: &mut Ctx) -> String {
+    use scylla::value::CqlValue;
+    if words.len() != 2 {
+        return "bad-case".into();
+    }
+    let Some(id) = crate::util::unhex(words[0]) else { return "bad-case".into() };
+    // (name, kind, position, type, value bytes)
+    let mut rows: Vec<(String, String, i32, String, Vec<u8>)> = Vec::new();
+    for r in words[1].split(',') {
+        let f: Vec<&str> = r.split(':').collect();
+        if f.len() != 5 {
+            return "bad-case".into();
+        }
+        let kind = match f[1] { "p" => "partition_key", "c" => "clustering", "r" => "regular", _ => return "bad-case".into() };
+        let (Ok(pos), Some(val)) = (f[2].parse::<i32>(), crate::util::unhex(f[4])) else { return "bad-case".into() };
+        if !matches!(f[3], "blob" | "int" | "text") || (f[3] == "int" && f[1] == "p" && val.len() != 4) || (f[3] == "text" && !val.is_ascii()) {
+            return "bad-case".into();
+        }
+        rows.push((f[0].to_owned(), kind.to_owned(), pos, f[3].to_owned(), val));
+    }
+    let value_of = |ty: &str, b: &[u8]| -> CqlValue {
+        match ty {
+            "int" => CqlValue::Int(i32::from_be_bytes(b.try_into().unwrap())),
+            "text" => CqlValue::Text(String::from_utf8(b.to_vec()).unwrap()),
+            _ => CqlValue::Blob(b.to_vec()),
+        }
+    };
+    register("ks.t_scylla_cdc_log", CDC_NAME);
+    {
+        let mut reg = COLUMN_ROWS.lock().unwrap();
+        reg.retain(|(k, _)| k != "ks.pkf");
+        reg.push(("ks.pkf".to_owned(), rows.iter().map(|(n, k, p, t, _)| (n.clone(), k.clone(), *p, t.clone())).collect()));
+    }
+    let seed = id.iter().fold(0u64, |a, b| a.wrapping_mul(131).wrapping_add(*b as u64));
+    let shape = Shape { nodes: 1, dcs: 1, racks: 1, shards: 0, msb: 12, vnodes: 4, strat: Strat::Simple(1), seed };
+    let mut topo = shape.topology();
+    topo.keyspaces[0].tables.push(table("t_scylla_cdc_log", "cdc$stream_id"));
+    topo.keyspaces[0].tables.push(table("pkf", "pk")); // its column rows are overridden
+    let rt = runtime(2);
+    let out = rt.block_on(async {
+        let handler: ClusterHandler = Box::new(move |r: &Req| match &r.parsed {
+            Parsed::Prepare { text } => match table_of(text) {
+                Some((ks, t)) => {
+                    let bind = Specs::new(&ks, &t, &[("pk", CqlT::Native(T_BLOB))]);
+                    vec![Act::Respond(RESP_RESULT, prepared_body(&md5ish(text), &bind, &[0], None))]
+                }
+                None => vec![act_error(0x2000, "syntax", &[])],
+            },
+            _ => vec![act_void()],
+        });
+        let cluster = MockCluster::start(topo, handler).await;
+        let session = match connect_with(&cluster, false, |b| b.fetch_schema_metadata(true)).await {
+            Ok(s) => s,
+            Err(line) => return line,
+        };
+        let cs = session.get_cluster_state();
+        let ks = cs.get_keyspace("ks");
+        let pkf = ks.and_then(|k| k.tables.get("pkf"));
+        let pk_names: Option<Vec<String>> = pkf.map(|t| t.partition_key.clone());
+
+        // ---- the case's own reading of the rows (oracle side; independent of the driver and of the model)
+        let distinct_names = { let mut n: Vec<&String> = rows.iter().map(|r| &r.0).collect(); n.sort(); n.dedup(); n.len() == rows.len() };
+        let by_pos = |kind: &str| -> Vec<&(String, String, i32, String, Vec<u8>)> {
+            let mut v: Vec<_> = rows.iter().filter(|r| r.1 == kind).collect();
+            v.sort_by_key(|r| r.2);
+            v
+        };
+        let exact = |v: &Vec<&(String, String, i32, String, Vec<u8>)>| v.iter().enumerate().all(|(i, r)| r.2 == i as i32);
+        let (pkc, ckc) = (by_pos("partition_key"), by_pos("clustering"));
+        let wellformed = distinct_names && exact(&pkc) && exact(&ckc);
+        let mut by_name = pkc.clone();
+        by_name.sort_by(|x, y| x.0.cmp(&y.0));
+
+        let ps = session.prepare("SELECT v FROM ks.t_scylla_cdc_log WHERE pk = ?").await;
+        let log_cdc = match &ps {
+            Ok(ps) => matches!(ps.get_partitioner_name(), PartitionerName::CDC),
+            Err(_) => {
+                ctx.fail("prepare on the CDC log table failed");
+                false
+            }
+        };
+        let mut out = format!(
+            "ks={} pk={} log={}",
+            if ks.is_some() { "present" } else { "absent" },
+            match &pk_names { None => "notable".to_owned(), Some(v) if v.is_empty() => "-".to_owned(), Some(v) => v.join(",") },
+            if log_cdc { "cdc" } else { "murmur3" }
+        );
+        let log_tok = cs.compute_token("ks", "t_scylla_cdc_log", &(id.clone(),));
+        out.push_str(&format!(" ; ctok log {} {}", crate::util::hex(&id), show_ctok(&log_tok)));
+
+        let show_typed = |v: &Vec<&(String, String, i32, String, Vec<u8>)>| {
+            if v.is_empty() { "-".to_owned() } else { v.iter().map(|r| format!("{}:{}", r.3, crate::util::hex(&r.4))).collect::<Vec<_>>().join(",") }
+        };
+        let pos_vals: Vec<CqlValue> = pkc.iter().map(|r| value_of(&r.3, &r.4)).collect();
+        let name_vals: Vec<CqlValue> = by_name.iter().map(|r| value_of(&r.3, &r.4)).collect();
+        let named: std::collections::HashMap<String, CqlValue> = pkc.iter().map(|r| (r.0.clone(), value_of(&r.3, &r.4))).collect();
+        let t_pos = cs.compute_token("ks", "pkf", &pos_vals);
+        let t_name = cs.compute_token("ks", "pkf", &name_vals);
+        let t_named = cs.compute_token("ks", "pkf", &named);
+        out.push_str(&format!(" ; ctok pkf {} {}", show_typed(&pkc), show_ctok(&t_pos)));
+        out.push_str(&format!(" ; ctok pkf {} {}", show_typed(&by_name), show_ctok(&t_name)));
+        if distinct_names {
+            let shown = if by_name.is_empty() { "-".to_owned() } else { by_name.iter().map(|r| format!("{}={}:{}", r.0, r.3, crate::util::hex(&r.4))).collect::<Vec<_>>().join(",") };
+            out.push_str(&format!(" ; ntok pkf {} {}", shown, show_ctok(&t_named)));
+        }
+
+        if wellformed && !pkc.is_empty() {
+            let want_names: Vec<String> = pkc.iter().map(|r| r.0.clone()).collect();
+            if pk_names.as_ref() != Some(&want_names) {
+                ctx.fail(format!("ks.pkf: partition_key is {:?}, the columns by key position are {:?}", pk_names, want_names));
+            }
+            let comps: Vec<&[u8]> = pkc.iter().map(|r| r.4.as_slice()).collect();
+            let expected = reference_murmur3(&encode_key(&comps));
+            if comps.iter().map(|c| c.len()).sum::<usize>() > 0 || comps.len() > 1 {
+                if t_pos.as_ref().ok().map(|t| t.value()) != Some(expected) {
+                    ctx.fail(format!("ks.pkf: compute_token of the key in partition-key (position) order gave {}, the server-side token is {}", show_ctok(&t_pos), expected));
+                }
+                if t_named.as_ref().ok().map(|t| t.value()) != Some(expected) {
+                    ctx.fail(format!("ks.pkf: compute_token of the NAMED key gave {}, the server-side token of the key in partition-key order is {}", show_ctok(&t_named), expected));
+                }
+            }
+            let types_pos: Vec<&String> = pkc.iter().map(|r| &r.3).collect();
+            let types_name: Vec<&String> = by_name.iter().map(|r| &r.3).collect();
+            if types_pos != types_name && !matches!(t_name, Err(scylla::errors::ClusterStateTokenError::Serialization(_))) {
+                ctx.fail(format!("ks.pkf: a key given in column-NAME order (types {:?}, key order {:?}) was not rejected: {}", types_name, types_pos, show_ctok(&t_name)));
+            }
+        }
+        if wellformed {
+            if !log_cdc {
+                ctx.fail("ks.t_scylla_cdc_log: the statement did not get the CDC partitioner although every table of the keyspace is well-formed");
+            }
+            if log_tok.as_ref().ok().map(|t| t.value()) != server_cdc_token(&id) {
+                ctx.fail(format!("ks.t_scylla_cdc_log: compute_token {} is not the CDC token of the stream id", show_ctok(&log_tok)));
+            }
+        }
+        out
+    });
+    COLUMN_ROWS.lock().unwrap().retain(|(k, _)| k != "ks.pkf");
+    out
+}
